@@ -430,6 +430,8 @@ struct Run {
     results: Vec<String>,
     put_ok: usize,
     parked_max: usize,
+    same_key_parked: usize,
+    appeared_in_flight: usize,
 }
 
 fn resolve(q: &Req, metas: &BTreeMap<usize, Meta>) -> (Resolved, String) {
@@ -542,6 +544,8 @@ async fn run_case(cfg: &Config, ops: &[Op]) -> Result<Run, String> {
     let mut index_of: BTreeMap<u32, usize> = BTreeMap::new();
     let mut put_ok = 0usize;
     let mut parked_max = 0usize;
+    let mut same_key_parked = 0usize;
+    let mut appeared_in_flight = 0usize;
     let mut next_cid = 1usize;
 
     for (i, op) in ops.iter().enumerate() {
@@ -616,6 +620,9 @@ async fn run_case(cfg: &Config, ops: &[Op]) -> Result<Run, String> {
                 obs_all.push(tier);
                 line.push(format!("S {} {}", qs, tier));
                 if at_store.is_some() {
+                    if parked.iter().any(|p| p.resolved.path == res.path) {
+                        same_key_parked += 1;
+                    }
                     parked.push(Parked { label: *label, cid, resolved: res, present_at_arrival: present, handle });
                     parked_max = parked_max.max(parked.len());
                     outs.push(format!("parked@{}", tier));
@@ -647,6 +654,9 @@ async fn run_case(cfg: &Config, ops: &[Op]) -> Result<Run, String> {
                 if strip_wrap(&got) != want && !(strip_wrap(&got) == "E1" && !p.present_at_arrival) {
                     bad.push(format!("op {} (W {}): concurrent read of {} returned {} but the backing store answers {}", i, label, p.resolved.path, got, want));
                 }
+                if got.starts_with("ok") && !p.present_at_arrival {
+                    appeared_in_flight += 1;
+                }
                 results.push(got.clone());
                 line.push(format!("W {}", index_of.get(label).copied().unwrap_or(0)));
                 outs.push(got);
@@ -657,7 +667,7 @@ async fn run_case(cfg: &Config, ops: &[Op]) -> Result<Run, String> {
     ctl.release_all();
     drop(cs);
     cache.clear().await;
-    Ok(Run { model_line: line.join(";"), impl_out: outs.join(";"), bad, obs: obs_all, results, put_ok, parked_max })
+    Ok(Run { model_line: line.join(";"), impl_out: outs.join(";"), bad, obs: obs_all, results, put_ok, parked_max, same_key_parked, appeared_in_flight })
 }
 
 // ------------------------------------------------------------ generator ----
@@ -772,7 +782,7 @@ fn gen_case(rng: &mut Rng, report: &mut Report) -> (Config, Vec<Op>) {
         if Some(i) == burst_at && !lens.is_empty() {
             // enough cache operations for moka to run its maintenance (evicts what exceeds the tiny L1)
             let present: Vec<usize> = lens.keys().copied().collect();
-            let n = rng.range_usize(66, 80);
+            let n = rng.range_usize(70, 90);
             for j in 0..n {
                 ops.push(Op::Read(Req::Get(present[j % present.len().min(3)])));
             }
@@ -914,7 +924,7 @@ fn main() {
         std::process::exit(if run.bad.is_empty() && (model.is_null() || run.impl_out == model_out) { 0 } else { 1 });
     }
 
-    let n_random = if args.thorough() { 10_000 } else { 300 };
+    let n_random = if args.thorough() { 10_000 } else { 500 };
     let mut rng = Rng::new(args.seed);
     let mut cases: Vec<(String, Config, Vec<Op>)> = corpus().into_iter().map(|(c, o)| ("corpus".to_string(), c, o)).collect();
     for _ in 0..n_random {
@@ -948,6 +958,8 @@ fn main() {
         if run.parked_max >= 2 {
             report.bump("concurrent.two_or_more_parked");
         }
+        report.bump_by("concurrent.parked_behind_reader_of_same_key", run.same_key_parked as u64);
+        report.bump_by("concurrent.object_created_while_reader_in_flight", run.appeared_in_flight as u64);
         let (differs, model_out) = model.differs(&run.model_line, &run.impl_out);
         report.sample(json!({"cfg": enc_cfg(&cfg), "ops": encode(&ops).chars().take(400).collect::<String>(),
                              "impl": run.impl_out.chars().take(400).collect::<String>(), "model": model_out.chars().take(400).collect::<String>()}));
